@@ -73,6 +73,33 @@ def value_mismatch(m: Any, fields: dict) -> tuple | None:
     return None
 
 
+def other_mismatch(kind: str, d: dict, m: Any) -> tuple | None:
+    """First piece of content of message m that the recorded callback d of a non-state subscription does not carry."""
+    if kind == "logs":
+        pairs = [("message", bytes(m.message), d.get("message"))]
+    elif kind == "service_calls":
+        pairs = [("service", m.service, d.get("service")), ("is_event", bool(m.is_event), d.get("is_event"))]
+        for fld in ("data", "data_template", "variables"):
+            pairs.append((fld, {v.key: v.value for v in getattr(m, fld)}, d.get(fld)))
+    elif kind == "ha_states":
+        pairs = [("entity_id", m.entity_id, d.get("entity_id")), ("attribute", m.attribute, d.get("attribute"))]
+    elif kind == "ble_free":
+        pairs = [("free", m.free, d.get("free")), ("limit", m.limit, d.get("limit"))]
+    elif kind == "ble_adv":
+        pairs = [("address", m.address, d.get("address")), ("rssi", m.rssi, d.get("rssi"))]
+        pairs.append(("service_uuids", len(m.service_uuids), len(d.get("service_uuids", ()))))
+        pairs.append(("service_data", len({v.uuid for v in m.service_data}), len(d.get("service_data", ()))))
+        pairs.append(("manufacturer_data", sorted(int(v.uuid, 16) for v in {v.uuid: v for v in m.manufacturer_data}.values()), sorted(d.get("manufacturer_data", ()))))
+    elif kind == "ble_raw":
+        pairs = [("advertisements", len(m.advertisements), d.get("n"))]
+    else:
+        pairs = []
+    for name, want, got in pairs:
+        if want != got:
+            return (name, want, got)
+    return None
+
+
 def subs_oracle(ix: Index, scn: dict) -> list[Violation]:
     from ..engine import proto_table
     from ..env import lib
@@ -173,6 +200,15 @@ def subs_oracle(ix: Index, scn: dict) -> list[Violation]:
             have = [g for g in got if g[1] in ("cb_log", "cb_service", "cb_ha_sub", "cb_ha_request", "cb_adv", "cb_raw_adv", "cb_free")]
             if not (want_n <= len(have) <= want_n + amb):
                 out.append(Violation("callback-count", kind, f"{tag} ({kind}): {len(have)} callbacks for {want_n} subscribed {wname} message(s)"))
+            elif not amb and len(have) == want_n:
+                # ... once per message: callback #i is about message #i - what it carries is that message's content, whatever
+                # a consumer did to the model of an earlier delivery
+                wmsgs = [m for seq, turn, t, name, m in msgs if name == wname and active(s, seq)]
+                for i, (g, m) in enumerate(zip(have, wmsgs)):
+                    bad = other_mismatch(kind, g[2], m)
+                    if bad is not None:
+                        out.append(Violation("callback-values", f"{kind}.{bad[0]}", f"{tag} ({kind}): callback #{i} carries {bad[0]} = {bad[2]!r}, its {wname} message has {bad[1]!r}"))
+                        break
             elif kind == "ha_states" and not amb and [g[1] for g in have] != want_detail:
                 out.append(Violation("ha-state-routing", "", f"{tag}: callbacks {[g[1] for g in have]} expected {want_detail}"))
         elif kind == "voice":
@@ -278,6 +314,20 @@ def gen_c17(rng: random.Random) -> dict:
                 f = rand_fields(rng, n)
                 if n == "BluetoothLERawAdvertisementsResponse":
                     f = {"advertisements": [{"address": 5, "rssi": -60, "data": "0201"}] * rng.randint(0, 2)}
+                elif n == "HomeassistantServiceResponse":
+                    # most calls fill only some of the three maps; the consumer keeps (and edits) what it is handed
+                    for fld in ("data", "data_template", "variables"):
+                        if rng.random() < 0.5:
+                            f[fld] = [{"key": pick(rng, ["entity_id", "brightness", "level", "rendered"]), "value": pick(rng, ["", "light.x", "{{ level }}", "7"])} for _ in range(rng.randint(1, 2))]
+                elif n == "BluetoothLEAdvertisementResponse":
+                    if rng.random() < 0.5:
+                        f["service_uuids"] = [pick(rng, ["0x180F", "0000fe9f-0000-1000-8000-00805f9b34fb", "0xFEAA"]) for _ in range(rng.randint(1, 2))]
+                    if rng.random() < 0.4:
+                        legacy = rng.random() < 0.3
+                        f["service_data"] = [{"uuid": pick(rng, ["0x180F", "0xFEAA"]), **({"legacy_data": [1, 2, 300 % 256]} if legacy else {"data": "0a0b"})} for _ in range(rng.randint(1, 2))]
+                    if rng.random() < 0.4:
+                        legacy = rng.random() < 0.3
+                        f["manufacturer_data"] = [{"uuid": pick(rng, ["0x004C", "0x0006"]), **({"legacy_data": [9, 8]} if legacy else {"data": "ff01"})} for _ in range(rng.randint(1, 2))]
                 msgs.append([n, f])
             else:
                 n = pick(rng, ["VoiceAssistantRequest", "VoiceAssistantRequest", "VoiceAssistantAudio", "VoiceAssistantAnnounceFinished"])
